@@ -107,6 +107,24 @@ def extract_key_binder():
     return "RedirectUnrecognised", flat
 
 
+def extract_ascii():
+    """constants of AsciiComposer::ProcessKeyEvent (src/rime/gear/ascii_composer.cc) the model writes as literals: the tap
+    window `std::chrono::milliseconds(N)`, the strict comparison `now < toggle_expired_`, the range of keys pushed in
+    ascii mode `ch >= LO && ch < HI`.  -> (recognised, ms, strict, lo, hi)"""
+    src = _strip_comments(open(os.path.join(vlib.REPO, "src", "rime", "gear", "ascii_composer.cc")).read())
+    body = _body(src, r"ProcessResult\s+AsciiComposer::ProcessKeyEvent\s*\(\s*const\s+KeyEvent&\s+key_event\s*\)\s*\{")
+    if body is None:
+        return False, 0, False, 0, 0
+    flat = " ".join(body.split())
+    ms = re.findall(r"std::chrono::milliseconds\(\s*(\d+)\s*\)", flat)
+    cmp_ = re.findall(r"now\s*(<=|<)\s*toggle_expired_", flat)
+    rng = re.findall(r"ch\s*>=\s*(0x[0-9a-fA-F]+|\d+)\s*&&\s*ch\s*<\s*(0x[0-9a-fA-F]+|\d+)", flat)
+    ok = len(ms) == 1 and len(cmp_) == 1 and len(rng) == 1 and "toggle_expired_ = now + toggle_duration_limit" in flat
+    if not ok:
+        return False, 0, False, 0, 0
+    return True, int(ms[0]), cmp_[0] == "<", int(rng[0][0], 0), int(rng[0][1], 0)
+
+
 def generate():
     guard, flat = extract()
     hguard, hflat = extract_hist()
@@ -120,7 +138,15 @@ def generate():
            "Definition commit_history_guard : hist_guard := %s." % hguard,
            "Inductive redirect_guard := RedirectGuarded | RedirectUnguarded | RedirectUnrecognised.",
            "(* KeyBinder::ProcessKeyEvent (head) | PerformKeyBinding: %s *)" % kflat.replace("(*", "( *").replace("*)", "* )"),
-           "Definition key_binder_redirect_guard : redirect_guard := %s." % kguard, ""]
+           "Definition key_binder_redirect_guard : redirect_guard := %s." % kguard]
+    aok, ams, astrict, alo, ahi = extract_ascii()
+    out += ["From Coq Require Import NArith ZArith.",
+            "(* AsciiComposer::ProcessKeyEvent: tap window (ms), `now < toggle_expired_` strict?, keys pushed in ascii mode lo <= ch < hi *)",
+            "Definition ascii_facts_recognised : bool := %s." % ("true" if aok else "false"),
+            "Definition ascii_toggle_window_ms : N := %d%%N." % ams,
+            "Definition ascii_window_strict : bool := %s." % ("true" if astrict else "false"),
+            "Definition ascii_push_lo : Z := %d%%Z." % alo,
+            "Definition ascii_push_hi : Z := %d%%Z." % ahi, ""]
     vlib.write_if_changed(os.path.join(vlib.COQ, "Gen", "EngFacts.v"), "\n".join(out))
     return guard, flat
 
